@@ -58,6 +58,7 @@ struct Obj {            // an awaited future and its producer
   std::uint32_t id = 0;
   std::uint64_t set_invoke = 0;
   int global_shared = -1;
+  std::uint32_t cell = 0;  // written before the object is fulfilled, read by the coroutine after it resumed
 };
 
 struct Op {
@@ -214,6 +215,15 @@ class Case final : public sim::CaseBase {
   }
 
   void Log(int k, int op, Outcome got, bool threw, const void* cur = nullptr) {
+    for (int oi : scripts[static_cast<std::size_t>(k)].ops[static_cast<std::size_t>(op)].objs) {
+      Obj& o = objs[static_cast<std::size_t>(oi)];
+      if (o.set_invoke > 1) {
+        sim::RaceRead(&o.cell, sizeof o.cell);
+        if (o.cell != o.id) {
+          sim::Fail("STALE_PAYLOAD", "coroutine %d resumed from op %d but does not see what was written before the awaited object was fulfilled", k, op);
+        }
+      }
+    }
     logs[static_cast<std::size_t>(k)].push_back(LogEntry{op, got, sim::CurrentExec(), sim::Seq(), threw, cur});
   }
 
@@ -231,6 +241,8 @@ class Case final : public sim::CaseBase {
 
   void Fulfil(std::size_t i) {
     Obj& o = objs[i];
+    sim::RaceWrite(&o.cell, sizeof o.cell);
+    o.cell = o.id;
     o.set_invoke = sim::Seq();
     auto set = [&](auto p) {
       if (o.outcome == 1) {
